@@ -13,8 +13,8 @@ Open Scope Z_scope.
    with MAX = 0xFFFF / 0xFFFFFFFF / 1 AND are followed by the integrality test `value != int(self)`; uint16/uint32
    keep int(self) as packed value; bytes tests isinstance; string decodes bytes with surrogateescape; the digest
    setters demand 16 / 20 / 32 bytes and digest.__init__ raises for anything that is not a tuple, list, dict or
-   None; __setattr__ stores after converting and lets None through; typedlist converts every element; datetime
-   ends with the tzinfo fix-up.  Reverting any of the repairs e636926 / f4497f4 / b7afec5 makes this fail. *)
+   None; __setattr__ stores after converting and lets None through; GroupedRecord.__setattr__ delegates to it;
+   typedlist converts every element; datetime ends with the tzinfo fix-up.  Reverting any of the repairs e636926 / f4497f4 / b7afec5 makes this fail. *)
 Theorem C05_generated_facts : facts_ok gen_facts = true.
 Proof. reflexivity. Qed.
 
@@ -81,6 +81,13 @@ Proof. intros E. reflexivity. Qed.
 (* ---- a step that raises leaves the record as it was ---- *)
 Theorem C05_failed_op_is_noop : forall E kw r o r' e, step gen_facts E kw r o = (r', Raised e) -> r' = r.
 Proof. intros E. exact (step_noop gen_facts E eq_refl). Qed.
+
+(* assignment through a GroupedRecord view is the member's own (converting, checking) assignment -- the generated
+   fact f_grouped_delegates: GroupedRecord.__setattr__ hands the member's field to setattr(member, attr, val).
+   OSetGrouped is one of the operations C05_invariant and C05_failed_op_is_noop quantify over. *)
+Theorem C05_grouped_assignment_is_member_assignment : forall E kw r i v,
+  step gen_facts E kw r (OSetGrouped i v) = step gen_facts E kw r (OSet i v).
+Proof. intros E. exact (step_grouped gen_facts E eq_refl). Qed.
 
 (* assigning None is always accepted (and unsets the slot) *)
 Theorem C05_none_is_always_accepted : forall E r i sl, nth_error r i = Some sl ->
